@@ -514,6 +514,10 @@ def phase_a(rec):
                     continue
                 res["events"].append({"kind": "prog", "via": via, "expr": a, "pts": pts, "prog": sp,
                                       "_key": (variant, via)})
+                if via == "compile" and variant == "lazy" and rec.get("frag") and key_of(a) == key_of(t):
+                    # the model's program (ProgSem!Lower) has one operation per distinct non-leaf subterm
+                    d = len(sp["ops"]) - rec["mops"]
+                    res["notes"]["operations_vs_model:%s" % ("equal" if d == 0 else "more" if d > 0 else "fewer")] += 1
     return res
 
 
